@@ -378,7 +378,7 @@ func runProperty(eng *symex.Engine, prop, tier string, t0 time.Time) int {
 	}
 	opts := symex.DischargeOpts{Timeout: time.Duration(*flagTimeout) * time.Second, Jobs: *flagJobs, All: tier == "thorough"}
 	results := symex.Discharge(sel, opts)
-	gres := symex.Discharge(guards, symex.DischargeOpts{Timeout: 5 * time.Second, Jobs: *flagJobs, MaxGroup: 1})
+	gres := symex.Discharge(guards, symex.DischargeOpts{Timeout: 5 * time.Second, Jobs: *flagJobs, MaxGroup: 1, KeepScripts: true})
 	findings := loadFindings()
 	violations := 0
 	discharged := 0
@@ -413,7 +413,7 @@ func runProperty(eng *symex.Engine, prop, tier string, t0 time.Time) int {
 	for _, g := range gres {
 		if g.Status == "unsat" {
 			vacuous++
-			failed = append(failed, symex.Result{O: &symex.Oblig{Name: g.O.Name + " (vacuous: contradictory assumptions)", Kind: g.O.Kind, Func: g.O.Func}, Status: "vacuous",
+			failed = append(failed, symex.Result{O: &symex.Oblig{Name: g.O.Name + " (vacuous: contradictory assumptions)", Kind: g.O.Kind, Func: g.O.Func}, Status: "vacuous", Script: g.Script,
 				Output: "the assumptions of this function are unsatisfiable; every obligation would hold vacuously"})
 		}
 	}
